@@ -21,6 +21,7 @@ EXPLANATION = (
     "constraint built only from the target/excluded sets, timestamp constrained only from below, fresh "
     "calldata per call). Foundry's filter semantics as a truth table and coverage of sequences are not decided."
     ' Also decided: StorageData.digest feeds keys and values through one hash state in sequence (no combination of separately hashed parts); Path.append records the transitively closed dependency set; targetSelector/excludeSelector entries accumulate per contract.'
+    " Round 4: a probe is marked reported only under a solver model (R15.10); every filter set of the invariant context is exactly its getter's result."
 )
 ASSUMPTIONS = ["z3 term ids and Python object ids are stable while the objects are retained (retention is what R15.3 checks)"]
 
@@ -280,8 +281,12 @@ def r15_6_filters_structure(repo: Repo, rep: Report):
     _, ic = repo.fn("__main__.get_invariant_testing_context")
     pairs = {"target_senders": "get_target_senders", "target_contracts": "get_target_contracts", "target_selectors": "get_target_selectors", "excluded_senders": "get_excluded_senders", "excluded_contracts": "get_excluded_contracts", "excluded_selectors": "get_excluded_selectors"}
     c = [x for x in body_walk(ic) if isinstance(x, ast.Call) and call_name(x) == "InvariantTestingContext"]
-    ok = len(c) == 1 and all(kwarg(c[0], k) is not None and call_name(kwarg(c[0], k)) == v for k, v in pairs.items())
-    rep.check("R15.6", ok, m, c[0] if c else ic, "InvariantTestingContext(target_*/excluded_* = matching getter)", "a filter set is filled from the wrong getter")
+    if len(c) != 1:
+        raise AnalysisError("get_invariant_testing_context: InvariantTestingContext(...) construction not found")
+    for k, v in pairs.items():
+        a = kwarg(c[0], k)
+        ok = a is not None and isinstance(a, ast.Call) and call_name(a) == v and [src(x) for x in a.args] == ["ctx", "setup_ex"]
+        rep.check("R15.6", ok, m, a if a is not None else c[0], f"InvariantTestingContext({k}={src(a) if a is not None else '<absent>'})", f"the filter set `{k}` must be exactly what {v}(ctx, setup_ex) returns: a set pre-filled here (e.g. with the contracts deployed by setUp) stops resolve_target_contracts from using the contracts of the *current* state, so contracts created during the run are never called")
 
 
 def r15_9_selector_decoding(repo: Repo, rep: Report):
